@@ -410,6 +410,15 @@ def run_scenario(sc):
             if done and (not inj or injected["done"]) and not any(not t.done() for t in pending):
                 break
         net.fault_counter["on"] = False
+        # the application stopped polling (e.g. after repeated NoOffsetForPartitionError of ANOTHER partition): give
+        # lookups that are still in flight (a reset / seek_to_* awaiting its ListOffsets reply) time to complete
+        # before the final snapshot - the fetcher works in the background whether or not the application polls
+        for _ in range(100):
+            asg = consumer._subscription.subscription.assignment if consumer._subscription.subscription else None
+            if asg is None or not any(asg.state_value(tp)._position is None and asg.state_value(tp)._reset_strategy is not None
+                                      for tp in tps if asg.state_value(tp) is not None):
+                break
+            await asyncio.sleep(0.05)
         for t in pending:
             if not t.done():
                 try:
